@@ -24,7 +24,7 @@ EXPLANATION = (
     "segment, pos rolled back by the resent bytes; R6 CRC fed exactly once per chunk (not while retransmitting), "
     "algorithm crc_hqx seeded 0, support taken from bit 2 of the server's answer; R7 segments retained for "
     "retransmission are immutable copies; R8 every response (initiate, block acknowledge, end) is validated before its "
-    "bytes are used and a wrong one aborts and raises (the validate-before-use clause shared with C07.R3). R9 no class-level mutable object is mutated in place by instances (each node/client/map/dictionary has its own state)."
+    "bytes are used and a wrong one aborts and raises (the validate-before-use clause shared with C07.R3); R9 structural assumptions shared by all properties: no class-level mutable object is mutated in place by instances, no method re-runs the constructor, logging statements cannot raise."
 )
 ASSUMPTIONS = [
     "not decided: retransmission outcomes under arbitrary loss patterns; the server is assumed standard-conformant",
